@@ -204,6 +204,7 @@ def _child(wfd, inputs):
     worst_t, worst_i = 0.0, -1
     bad = []
     memerr = 0
+    past = []
     rss_jump = None
     last_rss = base
     for i, data in enumerate(inputs):
@@ -220,12 +221,13 @@ def _child(wfd, inputs):
                 bad.append((i, entry, r))
             if dt > TIME_LIMIT and len(data) <= 65536:
                 bad.append((i, entry, f"took {dt:.1f}s"))
+        past.append(past_options(data))
         rss = resource.getrusage(resource.RUSAGE_SELF).ru_maxrss
         if rss - last_rss > RSS_LIMIT_KB and rss_jump is None:
             rss_jump = (i, rss - last_rss)
         last_rss = max(last_rss, rss)
     send(["done", {"worst_t": worst_t, "worst_i": worst_i, "bad": bad, "rss_growth_kb": last_rss - base,
-                   "rss_jump": rss_jump, "memerr": memerr}])
+                   "rss_jump": rss_jump, "memerr": memerr, "past": past}])
 
 
 def supervise(inputs, timeout):
@@ -331,9 +333,11 @@ def run_generated(spec, acc):
 
     for off in range(0, len(inputs), batch):
         chunk = inputs[off:off + batch]
-        for d in chunk:
-            nt = past_options(d)
-            acc.evaluations += 1
+        r = supervise(chunk, 120 + TIME_LIMIT)
+        suspects = []
+        acc.evaluations += len(chunk)
+        for d, nt in zip(chunk, r.get("past", [])):
+            # (whether an input has a parsable options row is measured inside the supervised worker)
             if nt:
                 h = hashlib.sha1(d).hexdigest()[:16]
                 if h not in acc.nontrivial:
@@ -341,8 +345,6 @@ def run_generated(spec, acc):
                     if len(acc.samples) < 2:
                         acc.samples.append({"kind": "bytes", "hex": d[:300].hex(), "len": len(d)})
             acc.counters["inputs_past_options" if nt else "inputs_rejected_early"] += 1
-        r = supervise(chunk, 120 + TIME_LIMIT)
-        suspects = []
         if r["status"] in ("died", "timeout"):
             suspects = [chunk[r["last"]]] if r["last"] >= 0 else []
             acc.counters["batches_" + r["status"]] += 1
@@ -416,10 +418,13 @@ def run_atheris(spec, acc):
         # non-trivial inputs discovered: corpus entries with a parsable options row
         import hashlib
 
-        for f in glob.glob(os.path.join(corpus, "*"))[:3000]:
+        found = []
+        for f in glob.glob(os.path.join(corpus, "*"))[:1500]:
             with open(f, "rb") as fh:
-                d = fh.read()
-            if past_options(d):
+                found.append(fh.read())
+        r2 = supervise(found, 300) if found else {"status": "ok", "past": []}
+        for d, nt in zip(found, r2.get("past", [])):
+            if nt:
                 acc.nontrivial.add(hashlib.sha1(d).hexdigest()[:16])
     except subprocess.TimeoutExpired:
         acc.counters["atheris_wall_budget_hit_inconclusive"] += 1
